@@ -33,6 +33,27 @@ func search(seed uint64, n int, t tools) {
 				outcomes["seg:"+runSegCase(c, t, &evals, false)]++
 			}
 		}
+		// deterministic grid: sync spacing x sample count x target duration x track set x tool mode
+		gops, counts := []int{1, 3, 12}, []int{7, 24}
+		if n >= 1000 {
+			gops, counts = []int{1, 2, 3, 5, 8, 12}, []int{1, 2, 7, 24, 36}
+		}
+		for _, g := range gops {
+			for _, cnt := range counts {
+				for ti := 0; ti < 3; ti++ {
+					for di := 0; di < 5; di++ {
+						if n < 1000 && di%2 == 1 {
+							continue
+						}
+						for _, m := range []string{"single", "lazy", "mux"} {
+							c := gridSegCase(g, cnt, ti, di, m)
+							outcomes["seg:"+runSegCase(c, t, &evals, false)]++
+							outcomes["seg-grid"]++
+						}
+					}
+				}
+			}
+		}
 		for i := 0; i < n; i++ {
 			class := 0
 			switch {
@@ -82,4 +103,47 @@ func runWitness(w string, t tools, evals *int, verbose bool) {
 	default:
 		runWitnessRest(w, t, evals, verbose)
 	}
+}
+
+// gridSegCase: 25 fps video (timescale 12800, 512 ticks per frame), sync every g frames, B-frame style
+// composition offsets, optional 48 kHz audio covering the video; di picks the target duration.
+func gridSegCase(g, cnt, ti, di int, mode string) segCase {
+	v := trackSpec{video: true, timescale: 12800, hasStss: true, hasCtts: true, spc: []int{3, 2}}
+	for i := 0; i < cnt; i++ {
+		s := smp{dur: 512, sync: i%g == 0, size: uint32(5 + (i*7)%23)}
+		if s.sync {
+			s.cto = 1024
+		} else {
+			s.cto = int32(512 * (i % 3))
+		}
+		v.samples = append(v.samples, s)
+	}
+	ms := totalMS(v)
+	a := trackSpec{timescale: 48000, spc: []int{4}}
+	na := int(ms*48/1024) + 2
+	for i := 0; i < na; i++ {
+		a.samples = append(a.samples, smp{dur: 1024, sync: true, size: uint32(3 + (i*5)%17)})
+	}
+	c := segCase{mode: mode}
+	switch ti {
+	case 0:
+		c.tracks = []trackSpec{v}
+	case 1:
+		c.tracks = []trackSpec{v, a}
+	default:
+		c.tracks = []trackSpec{a, v}
+	}
+	switch di {
+	case 0:
+		c.durMS = 1
+	case 1:
+		c.durMS = uint32(ms/4 + 1)
+	case 2:
+		c.durMS = uint32(ms/2 + 1)
+	case 3:
+		c.durMS = uint32(ms + 1)
+	default:
+		c.durMS = uint32(2*ms + 1000)
+	}
+	return c
 }
